@@ -8,6 +8,7 @@ import Dcg.Proofs.TemplateFixture
 import Dcg.Gen.CodeSites
 import Dcg.Gen.LoopSites
 import Dcg.Proofs.Loops
+import Dcg.Proofs.TemplateInv
 /-
 C01 — generation terminates and every emitted module is valid Python.
 
@@ -165,8 +166,11 @@ sources by jinja2's own parser on every run) and are given meaning by the interp
 below quantify over EVERY render context.  `ValuesOK o` says that every value interpolated during
 the rendering `o` — except docstring text, for which nothing is assumed — satisfies the invariant
 of its reviewed site class (`Proofs.TemplateBlock.BlockHyp`: identifiers, type hints, repr values,
-base lists, decorators are one line that neither starts with a blank nor is the keyword `class`,
-header sites contain no `#`; comment text is one line).  `blockOf text` is the final state of the
+base lists, decorators are one line — no `\n` — that neither starts with a blank nor is the keyword
+`class`, header sites contain no `#`; comment text is one line; the two sites inside the
+`indent(4)` filter block of the pydantic config contain no `str.splitlines` boundary at all).
+Whether the contexts the generator really builds satisfy it is observed on every end-to-end run at
+the render boundary (`vlib/props/render_probe.py`, driver `tpl.inv`).  `blockOf text` is the final state of the
 block automaton of `Model/TemplateBlock` on the text. -/
 
 section Templates
@@ -251,6 +255,30 @@ theorem enum_before_fix_rejected :
       Dcg.Proofs.TemplateFixture.enumBeforeFix =
       some [(.name "decorators", false), (.name "description", false), (.name "fields", false)] :=
   ⟨Dcg.Proofs.TemplateFixture.enumBeforeFix_rejected, Dcg.Proofs.TemplateFixture.enumBeforeFix_counterexample⟩
+
+/-- **Names discharge the value hypotheses.** What C07 proves of the resolvers — a member or class
+name is a Python identifier that is not a keyword (`Model/TemplateInv.identValueB`) — is enough for
+the hypotheses that the template theorems of C01 (`BlockHyp`, above) and C10 (`LexHyp`:
+`template_lexically_closed`, `sites_in_allowed_states`) make about the value of a one-line code site:
+such a value is one line, does not start with a blank, is not `class`, contains no `#`, no quote, no
+backslash.  The name sites (`{{ field.name }}`, `{{ class_name }}`, `{{ fields[0].name }}`) are
+checked against `identValueB` on every real render context of every end-to-end run (driver
+`tpl.inv`): a member that reaches rendering without a name is written as `None` and violates it — the
+assumption of this theorem, and with it the link to C07, is then broken for that document. -/
+theorem identifier_values_discharge_hypotheses (e : Expr) (v : List Char) (hd : Bool)
+    (hk : slotKind e = .word hd) (hv : Dcg.Model.TemplateInv.identValueB v = true) :
+    BlockHyp e v ∧ Dcg.Proofs.TemplateLex.LexHyp e v :=
+  Dcg.Proofs.TemplateInv.identValue_hyps e v hd hk hv
+
+/-- non-vacuity: `field.name` is such a site, `user_id` such a value; `None`, `class`, the empty
+string and `a b` are not -/
+example : slotKind (.attr (.name "field") "name") = .word false ∧
+    Dcg.Model.TemplateInv.isNameSite (.attr (.name "field") "name") = true ∧
+    Dcg.Model.TemplateInv.identValueB "user_id".toList = true := by decide +kernel
+example : Dcg.Model.TemplateInv.identValueB "None".toList = false ∧
+    Dcg.Model.TemplateInv.identValueB "class".toList = false ∧
+    Dcg.Model.TemplateInv.identValueB [] = false ∧
+    Dcg.Model.TemplateInv.identValueB "a b".toList = false := by decide +kernel
 
 /-- non-vacuity of the class theorems: a real rendering of `Enum.jinja2` (no members, a
 description) that satisfies the hypotheses; what the block automaton accepts and rejects -/
